@@ -149,7 +149,7 @@ func runC13(c *Ctx) {
 	c.Res.Rule = "real servers (UDP, generic PacketConn, TCP) with 0..k in-flight requests; Shutdown at random and at forced points (inside a handler, between the started check and the deadline refresh), context expiry, double start, shutdown before start, failed start then shutdown / restart; goroutine count before and after; distinct by scenario and seed"
 	base := runtime.NumGoroutine()
 	kinds := []string{"udp", "pc", "tcp"}
-	rounds := c.Scale(6, 60)
+	rounds := c.Scale(6, 400)
 	for round := 0; round < rounds; round++ {
 		for _, kind := range kinds {
 			in := fmt.Sprintf("kind=%s round=%d", kind, round)
